@@ -790,6 +790,10 @@ func init() {
 	reg("both", "C01-tcp-receiver-histories-L3", "C01", 0, -1, c16HistoryLog(true, 3, true), false)
 	reg("thorough", "C01-udp-receiver-histories-L4", "C01", 0, -1, c16HistoryLog(false, 4, true), false)
 	reg("thorough", "C01-tcp-receiver-histories-L4", "C01", 0, -1, c16HistoryLog(true, 4, true), false)
+	// C02's "decodes back to exactly the value that was encoded" for frames that travel: the same
+	// frames (the largest legal ones among them) through the real UDP and TCP receivers
+	reg("both", "C02-frames-through-the-udp-receiver-L2", "C02", 0, -1, c16History(false, 2), false)
+	reg("both", "C02-frames-through-the-tcp-receiver-L2", "C02", 0, -1, c16History(true, 2), false)
 	// "the outcome is a function of the input bytes alone" for bytes that reach the decoder through
 	// the stream receiver: the same frames, however the stream is cut into segments
 	reg("both", "C01-tcp-receiver-2cuts-upto2frames", "C01", 0, -1, c16TCPSeg(0, 2), false)
